@@ -29,7 +29,10 @@ type Outcome struct {
 type Stage struct {
 	Password *Outcome            `json:"password,omitempty"` // nil = callback not configured
 	Kbd      *Outcome            `json:"kbd,omitempty"`
-	PK       map[string]*Outcome `json:"pk,omitempty"` // per key name; nil map = callback not configured; missing key = reject
+	// PKOn: a PublicKeyCallback is configured (kept explicit: an empty map
+	// does not survive JSON serialisation of the scenario)
+	PKOn bool                `json:"pk_on,omitempty"`
+	PK   map[string]*Outcome `json:"pk,omitempty"` // per key name; missing key = reject
 }
 
 // Req is one client request.
@@ -101,13 +104,14 @@ func genStage(r *rand.Rand, allowPartial, pkPartial bool) Stage {
 	}
 	if r.IntN(4) > 0 {
 		st.PK = map[string]*Outcome{}
+		st.PKOn = true
 		for _, k := range keyNames {
 			if r.IntN(4) > 0 {
 				st.PK[k] = genOutcome(r, allowPartial && pkPartial)
 			}
 		}
 	}
-	if st.Password == nil && st.Kbd == nil && st.PK == nil {
+	if st.Password == nil && st.Kbd == nil && !st.PKOn {
 		st.Password = genOutcome(r, allowPartial)
 	}
 	return st
@@ -187,6 +191,7 @@ func gen(r *rand.Rand, prop, tier string, index int) any {
 		if st.PK == nil {
 			st.PK = map[string]*Outcome{}
 		}
+		st.PKOn = true
 		for _, k := range keyNames {
 			st.PK[k] = &Outcome{Kind: "accept"}
 		}
@@ -317,7 +322,7 @@ func (r *run) callbacks(i int) ssh.ServerAuthCallbacks {
 			return r.result(st.Kbd, "kbd", conn.User(), "", i, next)
 		}
 	}
-	if st.PK != nil {
+	if st.PKOn {
 		cb.PublicKeyCallback = func(conn ssh.ConnMetadata, key ssh.PublicKey) (*ssh.Permissions, error) {
 			kn := keyName(key)
 			return r.result(st.PK[kn], "pk", conn.User(), kn, i, next)
@@ -856,7 +861,7 @@ func (r *run) evaluate(q Req, stage int, partial bool, sessionUser string) verdi
 		}
 		return outcome(st.Kbd)
 	case "pk":
-		if st.PK == nil {
+		if !st.PKOn {
 			return verdict{kind: "publickey not configured", fails: true}
 		}
 		algo := q.Algo
